@@ -55,7 +55,7 @@ class DbGen:
     def __init__(self, rng, opts=None):
         self.rng = rng
         self.o = dict(inner_var_block=False, normal_proofs=0.08, top_essential=0.2, early_essential=0.15, spare_dv=0.3, restate_hyp=0.12, junk=0.15,
-                      wff=0.35, nested_axiom_blocks=0.25, sugar=0.2)
+                      wff=0.35, nested_axiom_blocks=0.25, sugar=0.2, nested_only_const=0.3)
         if opts:
             self.o.update(opts)
         self.db = []
@@ -98,6 +98,9 @@ class DbGen:
         sugar = r.random() < o['sugar']
         if sugar:
             consts += ['#Notation', '\\sug']
+        nested_only = r.random() < o['nested_only_const']
+        if nested_only:
+            consts.append('\\nbox')
         r.shuffle(consts)
         db = self.db
         # $c in 1..3 statements
@@ -209,7 +212,20 @@ class DbGen:
                 db.append(('F', self.flabel[late_v], P, late_v))
                 self.usable.append(late_v)
         ntheorems = r.randint(2, 6)
+        nested_at = r.randrange(ntheorems) if nested_only else None
         for i in range(ntheorems):
+            if i == nested_at:
+                # a constant that occurs ONLY at block depth >= 2 of the lemma's dependency cone: two rules in doubly nested blocks introduce
+                # and eliminate \nbox, no syntax axiom mentions it (it is never substituted for a variable), and the lemma's own statement
+                # does not contain it -- the slice must still declare it
+                self.info['features'].add('constant-only-in-nested-blocks')
+                q = self.usable[0]
+                out = self.rterm([q], 1)
+                wrap = (lambda st: ('B', (('D', tuple(self.usable[:2])), ('B', st)))) if len(self.usable) >= 2 and r.random() < 0.5 \
+                    else (lambda st: ('B', (('B', st),)))
+                db.append(wrap((('E', 'nb1.0', (Ap(T), V(q))), ('A', 'nb1', (Ap(T), ('A', '\\nbox', (V(q),)))))))
+                db.append(wrap((('E', 'nb2.0', (Ap(T), ('A', '\\nbox', (V(q),)))), ('A', 'nb2', (Ap(T), out)))))
+                self.add_theorem(i, plan=('nb1', 'nb2'), plan_var=q)
             self.add_theorem(i)
             if r.random() < 0.3:
                 self.add_axiom()
@@ -293,7 +309,7 @@ class DbGen:
                 kids.append(eproofs[hl] if hl in eproofs or hl not in self.global_e_const else (hl, []))
         return (lab, kids)
 
-    def add_theorem(self, idx):
+    def add_theorem(self, idx, plan=None, plan_var=None):
         r = self.rng
         T = self.T
         lab = self.fresh('th')
@@ -301,10 +317,12 @@ class DbGen:
         # variables this theorem talks about (others may still appear as dummies)
         ants = []
         own_dv = []
-        if r.random() < 0.45:
+        if plan:
+            ants.append(('E', f'{lab}.0', (Ap(T), V(plan_var))))
+        elif r.random() < 0.45:
             for i in range(r.randint(1, 2)):
                 ants.append(('E', f'{lab}.{i}', (Ap(T), self.rterm(vs, 1))))
-        if r.random() < 0.3 and len(vs) >= 2:
+        if not plan and r.random() < 0.3 and len(vs) >= 2:
             own_dv = r.sample(vs, 2)
             ants.insert(r.randint(0, len(ants)), ('D', tuple(own_dv)))
         # temporary database to compute the scope inside the theorem's block
@@ -334,13 +352,13 @@ class DbGen:
                 pool.append((self.unflat_hyp(h[0], ants), (h[0], [])))
         facts = [p for p in pool if p[0] is not None]
         derived = []
-        if facts and r.random() < self.o['restate_hyp']:
+        if not plan and facts and r.random() < self.o['restate_hyp']:
             # proved from a mandatory hypothesis alone: the compressed proof has an EMPTY label list `( ) <letter>`
             derived.append(r.choice(facts))
             self.info['features'].add('empty-label-list')
-        for _ in range(0 if derived else r.randint(1, 4)):
+        for forced in (plan or [None] * (0 if derived else r.randint(1, 4))):
             for _try in range(6):
-                al = r.choice(self.asserts)
+                al = forced or r.choice(self.asserts)
                 ent = sc.labels.get(al)
                 if ent is None or ent[0] != 'assert':
                     continue
